@@ -515,11 +515,10 @@ def known_match(known, prop, oid):
 # ------------------------------------------------------------------ main
 
 def check_prefix_prop(desc, props, prop):
+    """a failed CBMC check counts for every property its harness is registered for: the `Cxx:` prefix of the message
+    names the property whose wording the assertion was taken from, not the only one that depends on it"""
     if prop.startswith("KANI:"):
         return True
-    m = re.match(r"^\"?(C\d\d|A\d+):", desc.strip())
-    if m and m.group(1).startswith("C"):
-        return m.group(1) == prop
     return prop in props
 
 
